@@ -273,7 +273,7 @@ pub fn run_c05(ctx: &Ctx) -> i32 {
             Ok(Err(_)) => {}
         }
     });
-    rep.finish(ctx, ctx.tier.pick(100, 1000))
+    rep.finish(ctx, ctx.tier.pick(50, 1000))
 }
 
 // ---------------------------------------------------------------------------
